@@ -1,6 +1,6 @@
 (* Correspondence cases for C02 (SimpleDMRS codec at token level). *)
 From Coq Require Import List NArith ZArith Bool.
-From PyD Require Export Base.Str Model.Hier Model.Mrs Model.Iso Model.SimpleMrs Model.SimpleDmrs Corr.Common Corr.C01.
+From PyD Require Export Base.Str Model.Hier Model.Mrs Model.Iso Model.SimpleMrs Model.SimpleDmrs Model.MrsJson Model.DmrsJson Corr.Common Corr.C01.
 Import ListNotations.
 
 Definition dtok_eqb (a b : dtok) : bool :=
@@ -28,10 +28,12 @@ Definition dmrs_eqb (a b : dmrs) : bool :=
 
 Inductive case :=
 | DEnc (propopt lnkopt : bool) (g : dmrs) (toks : list dtok)
-| DDec (toks : list dtok) (res : option (list dmrs)).
+| DDec (toks : list dtok) (res : option (list dmrs))
+| DJson (propopt lnkopt : bool) (g : dmrs) (d : jv) (back : dmrs).
 
 Definition check_case (c : case) : bool :=
   match c with
   | DEnc p l g toks => list_eqb dtok_eqb (enc_dmrs p l g) toks
   | DDec toks res => option_eqb (list_eqb dmrs_eqb) (dec_dmrs_all (S (length toks)) toks) res
+  | DJson p l g d back => jv_eqb (d_to_dict p l g) d && option_eqb dmrs_eqb (d_from_dict d) (Some back)
   end.
